@@ -27,6 +27,11 @@ from lib import tlc as T
 from lib.common import Broken, log
 
 LEVEL = "model_checking"
+
+
+def _t(ctx, what):
+    ctx.extra.setdefault("phase_wall_s", {})[what] = ctx.timer.s()
+    log("phase done:", what, ctx.timer.s())
 MY_DEVS = [M.D4, M.D6]
 
 ASK_CFG = """CONSTANTS AKeys = {%s}  AVals = {%s}  AMaxLen = %d
@@ -222,12 +227,17 @@ def run(ctx):
                          "executions validated by MetricsSyncTrace.tla; distinct_nontrivial: distinct table rows + distinct (mode, readers, "
                          "filter, limit, operation sequence) histories containing an Add and a Collect")
     attr_set_key(ctx)
+    _t(ctx, "series identity (AttrSetKeyMC + c08_attrs)")
     exe = build.harness("c06_sync", ["c06_sync.cc"], "asan")
+    _t(ctx, "build")
     M.model_check(ctx, _ideal(thorough) + _asimpl(thorough), workers=4 if thorough else 3, parallel=3 if thorough else 2,
                   timeout_s=1500 if thorough else 400)
+    _t(ctx, "model checking")
     behs = generate(ctx)
+    _t(ctx, "behaviour generation")
     M.check_model_against_monitor(ctx, [b for b in behs if not b["mc"].dev], [], "ideal")
     M.check_model_against_monitor(ctx, [b for b in behs if b["mc"].dev], MY_DEVS, "asimpl")
+    _t(ctx, "model behaviours accepted by the monitor")
     rng = random.Random(ctx.seed * 37 + 11)
     nconc = 4 if thorough else 2
     programs, x = [], 0
@@ -237,11 +247,13 @@ def run(ctx):
             programs.append(_real_program(b, x, rng))
     res = execute_and_validate(ctx, exe, programs, "beh")
     ctx.extra["behaviours_executed"] = len(programs)
+    _t(ctx, "behaviours executed + validated")
     ctx.sample({"kind": "TLC behaviour executed on the real SyncMetricStorage (program)", "src": programs[0]["src"],
                 "limit": programs[0]["limit"], "temps": programs[0]["temps"], "ops": programs[0]["ops"][:12]})
     rp = random_programs(ctx, x + 1)
     res2 = execute_and_validate(ctx, exe, rp, "rnd", chunk_events=12000)
     ctx.extra["random_histories_executed"] = len(rp)
+    _t(ctx, "random histories executed + validated")
     ctx.extra["random_history_events"] = res2["events"]
     ctx.extra["default_limit_histories"] = sum(1 for p in rp if p["src"] == "random-default-limit")
     ctx.extra["executions_using_a_deviation"] = len(res["devs"]) + len(res2["devs"])
